@@ -397,3 +397,75 @@ func Harness_C16_LateReplyAfterCancel() {
 	}
 	vCover("late-reply-after-cancel-done")
 }
+
+// INVOCATION and its INTERRUPT processed back to back (both were queued while
+// the receive loop was busy in an event handler): the invocation is answered
+// by exactly one ERROR canceled; a handler that did start saw its context
+// cancelled
+func Harness_C16_InterruptRightAfterInvocation() {
+	cl, rt := vNewClient(2 * time.Second)
+	gate := make(chan struct{})
+	inEvent := make(chan struct{})
+	err := cl.Subscribe("t", func(*wamp.Event) {
+		close(inEvent)
+		<-gate
+	}, nil)
+	vAssert("subscribed", err == nil)
+	subID, _ := cl.SubscriptionID("t")
+	runs, sawCancel := 0, 0
+	waits := vBool("handler.waits.for.cancel")
+	err = cl.Register("p", func(ctx context.Context, inv *wamp.Invocation) InvokeResult {
+		runs++
+		if waits {
+			<-ctx.Done()
+			sawCancel++
+			return InvocationCanceled
+		}
+		if ctx.Err() != nil {
+			sawCancel++
+		}
+		return InvokeResult{Args: wamp.List{"r"}}
+	}, nil)
+	vAssert("registered", err == nil)
+	regID, _ := cl.RegistrationID("p")
+	rt.got = nil
+	rt.send(&wamp.Event{Subscription: subID, Publication: 1, Details: wamp.Dict{}})
+	<-inEvent // the receive loop is inside the event handler
+	rt.send(&wamp.Invocation{Request: 5, Registration: regID, Details: wamp.Dict{}, Arguments: wamp.List{1}})
+	rt.send(&wamp.Interrupt{Request: 5, Options: wamp.Dict{"mode": "killnowait"}})
+	close(gate)
+	vQuiesce()
+	vAdvance(int64(100) * 1000000)
+	vQuiesce()
+	nYield, nErr := 0, 0
+	for _, m := range rt.got {
+		switch mm := m.(type) {
+		case *wamp.Yield:
+			if mm.Request == 5 {
+				nYield++
+			}
+		case *wamp.Error:
+			if mm.Request == 5 && mm.Type == wamp.INVOCATION {
+				nErr++
+			}
+		}
+	}
+	vAssert("handler-ran-at-most-once", runs <= 1)
+	if waits {
+		vAssert("interrupted-invocation-answered-by-one-error", nErr == 1 && nYield == 0)
+		vAssert("started-handler-saw-cancellation", sawCancel == runs)
+	} else {
+		vAssert("exactly-one-answer", nErr+nYield == 1)
+	}
+	done := make(chan struct{})
+	go func() { cl.Close(); close(done) }()
+	vQuiesce()
+	vAdvance(int64(5 * time.Second))
+	vQuiesce()
+	select {
+	case <-done:
+	default:
+		vAssert("close-returns", false)
+	}
+	vCover("interrupt-after-invocation-checked")
+}
